@@ -20,7 +20,7 @@ FLAGS_tsan := -O1 -fsanitize=thread -fno-omit-frame-pointer -DSTSIM_TSAN
 LD_plain :=
 LD_asan := -fsanitize=address,undefined
 LD_tsan := -fsanitize=thread
-WRAP := -Wl,--wrap=pthread_mutex_lock -Wl,--wrap=pthread_mutex_unlock -Wl,--wrap=pthread_mutex_trylock
+WRAP := -Wl,--wrap=pthread_mutex_lock -Wl,--wrap=pthread_mutex_unlock -Wl,--wrap=pthread_mutex_trylock -Wl,--wrap=pthread_self
 
 SIM_SRCS := sim/core.cpp sim/sched.cpp sim/driver.cpp sim/san.cpp sim/wrap_mutex.cpp props/selftest.cpp
 UNIT_SRCS := $(sort $(wildcard units/*.cpp))
